@@ -348,13 +348,7 @@ func (env *predEnv) arith(e ast.Expr, val map[int]int64, pos map[int]bool, depth
 					if !ok {
 						return 0, false
 					}
-					switch b.Kind() {
-					case types.Uint8, types.Int8:
-						if v < 0 || v > 255 {
-							return 0, false
-						}
-					}
-					return v, true
+					return wrapToType(b, v)
 				}
 			}
 		}
@@ -379,28 +373,64 @@ func (env *predEnv) arith(e ast.Expr, val map[int]int64, pos map[int]bool, depth
 		if !ok1 || !ok2 {
 			return 0, false
 		}
+		// the operation is carried out in the static type of the expression: byte arithmetic wraps at 256
+		wrap := func(v int64) (int64, bool) { return wrapToType(env.pkg.TypesInfo.TypeOf(x), v) }
 		switch x.Op {
 		case token.ADD:
-			return a + b, true
+			return wrap(a + b)
 		case token.SUB:
-			return a - b, true
+			return wrap(a - b)
 		case token.MUL:
-			return a * b, true
+			return wrap(a * b)
 		case token.OR:
-			return a | b, true
+			return wrap(a | b)
 		case token.AND:
-			return a & b, true
+			return wrap(a & b)
 		case token.XOR:
-			return a ^ b, true
+			return wrap(a ^ b)
 		case token.SHL:
 			if b >= 0 && b < 32 {
-				return a << uint(b), true
+				return wrap(a << uint(b))
 			}
 		case token.SHR:
 			if b >= 0 && b < 32 {
-				return a >> uint(b), true
+				return wrap(a >> uint(b))
 			}
 		}
+	}
+	return 0, false
+}
+
+// wrapToType reduces v to the value range of the integer type t (two's complement wrap-around), as the operation
+// would at run time; ok is false for types whose width is not fixed here.
+func wrapToType(t types.Type, v int64) (int64, bool) {
+	if t == nil {
+		return 0, false
+	}
+	b, ok := t.Underlying().(*types.Basic)
+	if !ok {
+		return 0, false
+	}
+	switch b.Kind() {
+	case types.Uint8:
+		return int64(uint8(v)), true
+	case types.Uint16:
+		return int64(uint16(v)), true
+	case types.Uint32:
+		return int64(uint32(v)), true
+	case types.Int8:
+		return int64(int8(v)), true
+	case types.Int16:
+		return int64(int16(v)), true
+	case types.Int32:
+		return int64(int32(v)), true
+	case types.Int, types.Int64, types.UntypedInt, types.UntypedRune:
+		return v, true
+	case types.Uint, types.Uint64, types.Uintptr:
+		if v < 0 {
+			return 0, false
+		}
+		return v, true
 	}
 	return 0, false
 }
